@@ -308,7 +308,38 @@ func NewApp() (*app.Canto, sdk.Context) {
 
 // Try runs f on a branch of ctx and writes the branch only when f returns nil
 // and does not panic — the message atomicity of baseapp.runMsgs.
+//
+// Ghost executions.  State that a keeper holds OUTSIDE the multistore (a memoised parameter set, an index kept in a Go
+// map, a remembered address) is not rolled back with a discarded branch: a simulation, a mempool check, a proposal whose
+// later message fails or a reverted EVM hook leaves it behind, and every later result may depend on it.  To exhibit
+// that, Try first runs f - with probability 1/3, always when a case is replayed - on a branch that is thrown away
+// whatever f returns, and only then for real.  On code whose state lives in the store the ghost run has no effect, so
+// the model (which never sees it) still agrees; f must not have harness-side effects that a second run would double
+// (it may assign results, which the real run overwrites).  VERIF_GHOST=0 switches it off.
+var ghostRng = rand.New(rand.NewSource(20261001))
+var ghostAlways = os.Getenv("VERIF_REPLAY") != ""
+var ghostOff = os.Getenv("VERIF_GHOST") == "0"
+var GhostRuns int
+
 func Try(ctx sdk.Context, f func(ctx sdk.Context) error) (err error) {
+	return tryGhost(ctx, f, true)
+}
+
+// TryPlain: Try without a ghost execution, for closures with harness-side state that a second run would consume
+// (the scripted EVM of C04 answers its k-th call from a script).
+func TryPlain(ctx sdk.Context, f func(ctx sdk.Context) error) (err error) {
+	return tryGhost(ctx, f, false)
+}
+
+func tryGhost(ctx sdk.Context, f func(ctx sdk.Context) error, ghost bool) (err error) {
+	if ghost && !ghostOff && (ghostAlways || ghostRng.Intn(3) == 0) {
+		func() {
+			defer func() { _ = recover() }()
+			g, _ := ctx.CacheContext()
+			_ = f(g)
+			GhostRuns++
+		}()
+	}
 	cctx, write := ctx.CacheContext()
 	defer func() {
 		if r := recover(); r != nil {
